@@ -27,14 +27,15 @@ subscription SubOp { ticks }
 query TypenameAndField { __typename a { id } }
 query OnlyTypename { __typename }
 query RootFragment { ...RootInfo }
+query LiteralOp { byId(id: "par\\u2028graph \\"q\\" \\\\ end", flt: {q: "form\\u000Cfeed"}) { id } }
 fragment FA on A { a1 tags }
 fragment RootInfo on Query { __typename version }
 """
 OPS = {"OneField": False, "ManyFields": False, "UnionOp": False, "FragOp": False, "ScalarOp": False, "ArgsOp": True, "SubOp": False,
-       "TypenameAndField": False, "OnlyTypename": False, "RootFragment": False}
+       "TypenameAndField": False, "OnlyTypename": False, "RootFragment": False, "LiteralOp": False}
 KIND = {"OneField": "one_field", "ManyFields": "many_fields", "UnionOp": "union", "FragOp": "fragment", "ScalarOp": "scalar",
         "ArgsOp": "arguments", "SubOp": "subscription", "TypenameAndField": "typename_and_field", "OnlyTypename": "only_typename",
-        "RootFragment": "root_fragment_two_fields"}
+        "RootFragment": "root_fragment_two_fields", "LiteralOp": "string_literals"}
 MANY = ("many_fields", "typename_and_field", "root_fragment_two_fields")     # Plugins!SingleTopLevel is FALSE for these
 PATH = {"shorter": "ariadne_codegen.contrib.shorter_results.ShorterResultsPlugin",
         "extract": "ariadne_codegen.contrib.extract_operations.ExtractOperationsPlugin",
@@ -76,7 +77,7 @@ def norm_req(r):
 
 
 def top_key(opname):
-    return {"OneField": "a", "UnionOp": "u", "FragOp": "a", "ScalarOp": "version", "ArgsOp": "byId", "SubOp": "ticks", "OnlyTypename": "__typename"}.get(opname)
+    return {"OneField": "a", "UnionOp": "u", "FragOp": "a", "ScalarOp": "version", "ArgsOp": "byId", "SubOp": "ticks", "OnlyTypename": "__typename", "LiteralOp": "byId"}.get(opname)
 
 
 def run(tier, work, replay=None):
